@@ -16,11 +16,7 @@ Three levels, one predicate each:
                 and is still fresh: relative: `t − t₀ < value` and the replayed Retry-After is `value − (t − t₀)`;
                 absolute: `t ≤ value` (the provider's instant) and the header is replayed unchanged.
 A miss is always allowed (the property is one-directional: replay ONLY IF …).
-
-The Boolean first argument of `cholds` / `tholds` selects the weaker reading that the unchanged code really
-satisfies (`true`) — it is the classifier of the two findings:
-  F12a: key built from the JOINED parameter string (ambiguous: "a:x.b:y") instead of the parameter values;
-  F12b: absolute Retry-After: TTL computed from whole seconds of `now` ⇒ replay up to (t₀ mod 1 s) too long.
+(F12a and F12b are repaired: the code-faithful weaker readings and their classifiers are gone.)
 -/
 namespace LunarVerif.C12
 
@@ -75,77 +71,59 @@ variable {σ : Type} [DecidableEq σ]
 
 /-! ### caching remedy -/
 
-/-- Does the earlier record `r0` justify replaying (status, body, tag, ra) for (m, u, sel | joined) at `t`? -/
-def cJustifies (byJoined : Bool) (cfg : CCfg) (t : Int) (m u : σ) (sel : List (σ × σ)) (j : σ)
+/-- Does the earlier record `r0` justify replaying (status, body, tag, ra) for (m, u, sel) at `t`? -/
+def cJustifies (cfg : CCfg) (t : Int) (m u : σ) (sel : List (σ × σ))
     (st : Nat) (body : σ) (tag ra : Option σ) (r0 : PRec σ) : Bool :=
   match r0.op with
-  | .resp m0 u0 sel0 j0 r bodyLen _ =>
-    decide (m0 = m) && decide (u0 = u) && (if byJoined then decide (j0 = j) else decide (sel0 = sel))
+  | .resp m0 u0 sel0 r bodyLen _ =>
+    decide (m0 = m) && decide (u0 = u) && decide (sel0 = sel)
     && decide (bodyLen ≤ cfg.maxRec)
     && decide (r.status = st) && decide (r.body = body) && decide (r.tag = tag) && decide (r.ra = ra)
     && decide (r0.t ≤ t) && decide (t ≤ r0.t + cfg.ttl)
   | _ => false
 
-def cRecOk (byJoined : Bool) (cfg : CCfg) (r : PRec σ) (older : List (PRec σ)) : Bool :=
+def cRecOk (cfg : CCfg) (r : PRec σ) (older : List (PRec σ)) : Bool :=
   match r.op, r.out with
-  | .req m u sel j, .early st body tag (.raw ra) => older.any (cJustifies byJoined cfg r.t m u sel j st body tag ra)
-  | .req _ _ _ _, .noop => true
-  | .req _ _ _ _, _ => false
+  | .req m u sel, .early st body tag (.raw ra) => older.any (cJustifies cfg r.t m u sel st body tag ra)
+  | .req _ _ _, .noop => true
+  | .req _ _ _, _ => false
   | .probe, .probed tracked held _ _ =>
     decide ((held : Int) ≤ tracked) && decide (tracked ≤ cfg.maxBytes) && decide ((held : Int) ≤ cfg.maxBytes)
   | .probe, _ => false
   | _, _ => true
 
-def choldsRev (byJoined : Bool) (cfg : CCfg) : List (PRec σ) → Bool
+def choldsRev (cfg : CCfg) : List (PRec σ) → Bool
   | [] => true
-  | r :: older => cRecOk byJoined cfg r older && choldsRev byJoined cfg older
+  | r :: older => cRecOk cfg r older && choldsRev cfg older
 
-def cholds (byJoined : Bool) (cfg : CCfg) (h : List (PRec σ)) : Bool := choldsRev byJoined cfg h.reverse
-
-/-- (selected parameters, joined string) of an operation that has a key. -/
-def keyMaterial : POp σ → Option (List (σ × σ) × σ)
-  | .resp _ _ sel j _ _ _ => some (sel, j)
-  | .req _ _ sel j => some (sel, j)
-  | _ => none
-
-/-- No two operations of the history have the same joined string for different selected parameters
-    (the excluded class of F12a). -/
-def noCollision (ops : List (POp σ)) : Bool :=
-  ops.all fun a => ops.all fun b =>
-    match keyMaterial a, keyMaterial b with
-    | some (s1, j1), some (s2, j2) => !decide (j1 = j2) || decide (s1 = s2)
-    | _, _ => true
+def cholds (cfg : CCfg) (h : List (PRec σ)) : Bool := choldsRev cfg h.reverse
 
 /-! ### throttling remedy -/
 
-def tJustifies (slack : Bool) (cfg : TCfg) (t : Int) (m u : σ) (st : Nat) (body : σ) (tag : Option σ)
+def tJustifies (cfg : TCfg) (t : Int) (m u : σ) (st : Nat) (body : σ) (tag : Option σ)
     (ra : RaOut σ) (r0 : PRec σ) : Bool :=
   match r0.op with
-  | .resp m0 u0 _ _ r _ _ =>
+  | .resp m0 u0 _ r _ _ =>
     decide (m0 = m) && decide (u0 = u) && cfg.statuses.contains r.status
     && decide (r.status = st) && decide (r.body = body) && decide (r.tag = tag) && decide (r0.t ≤ t)
     && (match cfg.type, r.raNs with
         | .rel, some n => decide (t - r0.t < n) && decide (ra = .ns (n - (t - r0.t)))
-        | .abs, some n => decide (t ≤ n + (if slack then r0.t % nsPerSec else 0)) && decide (ra = .raw r.ra)
+        | .abs, some n => decide (t ≤ n) && decide (ra = .raw r.ra)
         | _, _ => false)
   | _ => false
 
-def tRecOk (slack : Bool) (cfg : TCfg) (r : PRec σ) (older : List (PRec σ)) : Bool :=
+def tRecOk (cfg : TCfg) (r : PRec σ) (older : List (PRec σ)) : Bool :=
   match r.op, r.out with
-  | .req m u _ _, .early st body tag ra => older.any (tJustifies slack cfg r.t m u st body tag ra)
-  | .req _ _ _ _, .noop => true
-  | .req _ _ _ _, _ => false
+  | .req m u _, .early st body tag ra => older.any (tJustifies cfg r.t m u st body tag ra)
+  | .req _ _ _, .noop => true
+  | .req _ _ _, _ => false
   | _, _ => true
 
-def tholdsRev (slack : Bool) (cfg : TCfg) : List (PRec σ) → Bool
+def tholdsRev (cfg : TCfg) : List (PRec σ) → Bool
   | [] => true
-  | r :: older => tRecOk slack cfg r older && tholdsRev slack cfg older
+  | r :: older => tRecOk cfg r older && tholdsRev cfg older
 
-def tholds (slack : Bool) (cfg : TCfg) (h : List (PRec σ)) : Bool := tholdsRev slack cfg h.reverse
-
-/-- Excluded class of F12b: absolute Retry-After and some call at an instant that is not a whole second. -/
-def secondAligned (cfg : TCfg) (h : List (PRec σ)) : Bool :=
-  !decide (cfg.type = .abs) || h.all fun r => decide (r.t % nsPerSec = 0)
+def tholds (cfg : TCfg) (h : List (PRec σ)) : Bool := tholdsRev cfg h.reverse
 
 end
 
